@@ -7,6 +7,8 @@ use ferrous::protocol::resp::RespFrame;
 use ferrous::storage::engine::StorageEngine;
 use serde_json::Value as J;
 use std::time::Duration;
+use ferrous::network::blocking::BlockingManager;
+use ferrous::network::connection::BlockingOp;
 
 fn bytes(v: &J) -> Vec<u8> {
     match v {
@@ -44,6 +46,8 @@ fn main() {
     let e = StorageEngine::new();
     let mut parser = RespParser::new();
     let mut baseline: u64 = 0;
+    let bm = BlockingManager::new(16);
+    let ps = ferrous::pubsub::PubSubManager::new();
     let r = std::panic::catch_unwind(std::panic::AssertUnwindSafe(|| {
         for (i, st) in script.as_array().unwrap().iter().enumerate() {
             let op = st["op"].as_str().unwrap();
@@ -62,6 +66,17 @@ fn main() {
                 "register_watch" => { let b = e.register_watch(db, &bytes(&a[0])); baseline = *b.as_ref().unwrap_or(&0); format!("{:?}", b.map(|_| "baseline")) }
                 "was_modified_since" => format!("{:?}", e.was_modified_since(db, &bytes(&a[0]), baseline)),
                 "flush_db" => format!("{:?}", e.flush_db(db)),
+                "blocking_register" => format!("{:?}", bm.register_blocked(db, int(&a[0]) as u64, blist(&a[1]), BlockingOp::BLPop, None)),
+                "blocking_notify" => { bm.notify_key_ready(db, &bytes(&a[0])); "()".into() }
+                "blocking_wakeups" => format!("{:?}", bm.process_wakeups().iter().map(|w| (w.conn_id, String::from_utf8_lossy(&w.key).to_string())).collect::<Vec<_>>()),
+                "blocking_has" => format!("{:?}", bm.has_blocked_clients(db, &bytes(&a[0]))),
+                "subscribe" => format!("{:?}", ps.subscribe(int(&a[0]) as u64, blist(&a[1])).map(|v| v.len())),
+                "psubscribe" => format!("{:?}", ps.psubscribe(int(&a[0]) as u64, blist(&a[1])).map(|v| v.len())),
+                "publish" => format!("{:?}", ps.publish(&bytes(&a[0]), b"m").map(|mut v| { v.sort(); v.iter().map(|(c, p)| (*c, p.as_ref().map(|x| String::from_utf8_lossy(x).to_string()))).collect::<Vec<_>>() })),
+                "xadd_id" => format!("{:?}", e.xadd_with_id(db, bytes(&a[0]), ferrous::storage::stream::StreamId::new(int(&a[1]) as u64, int(&a[2]) as u64), std::collections::HashMap::new()).map(|i| i.to_string())),
+                "xadd_auto" => format!("{:?}", e.xadd(db, bytes(&a[0]), std::collections::HashMap::new()).map(|i| (i.millis() > 1_000_000, i.seq()))),
+                "xrange" => format!("{:?}", e.xrange(db, &bytes(&a[0]), ferrous::storage::stream::StreamId::new(int(&a[1]) as u64, int(&a[2]) as u64), ferrous::storage::stream::StreamId::new(int(&a[3]) as u64, int(&a[4]) as u64), None).map(|v| v.iter().map(|x| x.id.to_string()).collect::<Vec<_>>())),
+                "xrevrange" => format!("{:?}", e.xrevrange(db, &bytes(&a[0]), ferrous::storage::stream::StreamId::new(int(&a[1]) as u64, int(&a[2]) as u64), ferrous::storage::stream::StreamId::new(int(&a[3]) as u64, int(&a[4]) as u64), None).map(|v| v.iter().map(|x| x.id.to_string()).collect::<Vec<_>>())),
                 "persist" => format!("{:?}", e.persist(db, &bytes(&a[0]))),
                 "pttl" => format!("{:?}", e.pttl(db, &bytes(&a[0])).map(|t| if t > 0 { 1 } else { t })),
                 "sleep_ms" => { std::thread::sleep(Duration::from_millis(int(&a[0]) as u64)); "()".into() }
